@@ -375,7 +375,8 @@ def minimise_and_confirm(prop, seed, v, out_dir):
                 shutil.copy(raw, final)
             with open(final) as f:
                 r = json.load(f)
-            return True, final, '%s: %s' % (r['violation']['cls'], r['violation']['msg'][:400])
+            vv = r.get('violation') or rec['violation']
+            return True, final, '%s: %s' % (vv['cls'], vv['msg'][:400])
     # the failure may depend on what earlier runs left behind in the worker process (a module-level cache in the library,
     # say): replay the worker's own history in one fresh process and keep the shortest suffix of it that still fails
     if v.get('history'):
@@ -481,6 +482,11 @@ def minimise_main(prop, raw, out):
         return 2
     small, tried = minimise(mod, rec['trace'], res.violation)
     res2 = execute_guarded(mod, small)
+    if not res2.violation:
+        # what the library keeps between runs (or where objects live) decided: the shrunk trace failed while shrinking and does
+        # not fail now.  The raw trace is the replay then; the caller goes on to the process-history / worker re-run replays
+        print('the minimised trace does not fail when run again in the same process: keeping the raw trace')
+        return 2
     rec2 = dict(rec)
     rec2['trace'] = small
     rec2['violation'] = res2.violation
